@@ -7,11 +7,10 @@
    Anchors (one action per critical section; the harness parks real goroutines at exactly these boundaries):
      Reserve(w,d)   crud.go updateAndReturnDoc: read the document (CAS), documentUpdateFunc -> assignSequence ->
                     sequenceAllocator.nextSequence (the shared counter moves), stop in front of the CAS write
-                    (LeakyDataStore.UpdateCallback is exactly this point)
      Cas(w)         the CAS write.  CAS still valid: the revision is stored with sequence, unused_sequences,
                     recent_sequences and the bucket emits a mutation.  CAS lost: the callback runs again -
                     allow_conflicts: assignSequence keeps the number if it is still above the document's, else moves it
-                    to the unused list and reserves a new one (Retry); otherwise 409 and every number held is published
+                    to the unused list and reserves a new one (retry); otherwise 409 and every number held is published
                     as unused (releaseSequence -> _sync:unusedSeq:N documents, which travel on the feed too)
      Fail(w)        a non-timeout storage error of the write: everything held is published as unused
      Die(w)         a timeout whose write was not applied / a node that dies: the numbers stay reserved for ever
@@ -24,28 +23,34 @@
      Abandon        CleanSkippedSequenceQueue after CacheSkippedSeqMaxWait
      Request        one-shot _changes (changes.go SimpleMultiChangesFeed, one iteration) from the client's token; the client
                     keeps the last_seq it is handed (rows are stamped with lowSequence = oldest skipped - 1)
-     Connect/Iter/Disconnect   a continuous _changes feed: per iteration the late-sequence feed and the channel feed are
-                    merged; it waits for a notification (wake) between iterations; the client remembers the token of the last
-                    row and may reconnect from it
-   Sequences are offsets from the database's sequence at start (0).  One channel (the all-documents channel), an admin
-   reader: visibility is C01/C02's subject, not this module's.  A revision is identified with its sequence.
+     Connect        a continuous _changes feed is opened from the client's last token and runs its first iteration (the
+                    late-sequence feeds are registered, not read)
+     Iter           a later iteration, after a notification: late-sequence feed and channel feed merged
+     Disconnect     the connection drops; the client keeps the token of the last row it received
+   Sequences are offsets from a point before the database's start; Base = the database's sequence at start.  One channel
+   (the all-documents channel), an admin reader: visibility is C01/C02's subject, not this module's.  A revision is
+   identified with its sequence.
 
-   Impl* conjuncts define implementation variables (what the harness reads back from the real system), Env* the
-   environment (writers' program counters, the feed's content), Ghost* the history variables. *)
+   Impl = what the harness reads back from the real system (Post* operators compute the implementation's next state, SetImpl
+   assigns it); Env = writers' program counters and the feed's content; Ghost = history variables. *)
 EXTENDS Integers, Sequences, FiniteSets, TLC
 
 CONSTANTS Docs,            \* document ids (strings)
           Writers,         \* writer ids (strings)
           Base,            \* the database's sequence at start-up (initialSequence); the first number handed out is Base + 1.
-                           \* Base = 0 is the brand-new database, where "oldest skipped - 1" = 0 reads as "nothing skipped" (NOTES.md, corner F-b)
-          MaxSeq,          \* bound on the counter (guard of Reserve / Retry)
+                           \* Base = 0 is the brand-new database, where "oldest skipped - 1" = 0 reads as "nothing skipped" (NOTES.md, F-b)
+          MaxSeq,          \* bound on the counter (guard of Reserve / retry)
           MaxNum,          \* CachePendingSeqMaxNum
           Conflicts,       \* BOOLEAN: allow_conflicts (a writer that lost the CAS race retries and succeeds) or 409
           AllowFail, AllowDie, AllowAbandon, AllowReconnect,
           MaxDup,          \* redeliveries the feed may make
           TimedAbandon,    \* TRUE: abandonment only fires for sequences nothing in flight can still declare (feed delay << CacheSkippedSeqMaxWait)
           Clients,         \* subset of {"os","ct"}: one-shot resume loop / continuous feed
-          ContKeepsLow,    \* FALSE = as coded (named deviation ContResumeDropsLow, see NOTES.md); TRUE = intended
+          ContKeepsLow,    \* FALSE = as coded (named deviation ContResumeDropsLow, NOTES.md F-a); TRUE = intended
+          RecentCutAtUnused, \* TRUE = as coded (named deviation, NOTES.md F-c): with unused_sequences present DocChanged only looks at
+                           \* recent_sequences below unused_sequences[0]; FALSE = intended (below the revision's own sequence)
+          Mut,             \* model-level mirrors of the self-test mutations (non-vacuity runs): subset of
+                           \* {"norelease","norecent","nolow","nowake_late"}; {} = the specification
           MaxSteps, RecordHist
 
 VARIABLES counter,         \* _sync:seq
@@ -56,7 +61,7 @@ VARIABLES counter,         \* _sync:seq
           late,            \* its late-sequence log: Seq of [d, seq]
           wake,            \* a notification is pending for the waiting continuous feed
           os,              \* one-shot client: the token [l,s] it will send next
-          ct,              \* continuous feed + its client: [on, first, since, lpos, tok]
+          ct,              \* continuous feed + its client: [on, since, lpos, tok]
           resp,            \* rows of the last response / iteration: Seq of [d, seq, l]  (observable output)
           wr, feed, dup,   \* environment: writers [pc,d,seq,unused,base], undelivered feed events, redelivery budget
           got, commits, abandoned, ordOK, dead,   \* ghosts
@@ -71,28 +76,35 @@ view  == <<impl, env, ghost>>
 Max(a, b) == IF a > b THEN a ELSE b
 SetMin(S) == CHOOSE x \in S : \A y \in S : x <= y
 SetMax(S) == CHOOSE x \in S : \A y \in S : x >= y
-NoTok == [l |-> 0, s |-> 0]
 (* SequenceID.String / parse for tokens without TriggeredBy (specs/SeqToken): the low part survives iff 0 < l < s *)
 Norm(l, s) == [l |-> IF l > 0 /\ l < s THEN l ELSE 0, s |-> s]
 Safe(k) == IF k.l > 0 /\ k.l < k.s THEN k.l ELSE k.s
 Before(a, b) == IF a.l # 0 THEN (IF a.l = b.l THEN a.s < b.s ELSE IF b.l # 0 THEN a.l < b.l ELSE a.l < b.s)
                 ELSE (IF b.l # 0 THEN a.s <= b.l ELSE a.s < b.s)
+StartTok == [l |-> 0, s |-> Base]                                    \* a client that has everything up to the start
 
 IdleW == [pc |-> "idle", d |-> "", seq |-> 0, unused |-> {}, base |-> 0]
-Mut(d, s, rc, un) == [k |-> "mut", d |-> d, seq |-> s, recent |-> rc, unused |-> un]
+MutEv(d, s, rc, un) == [k |-> "mut", d |-> d, seq |-> s, recent |-> rc, unused |-> un]
 Un(s) == [k |-> "un", d |-> "", seq |-> s, recent |-> {}, unused |-> {}]
 Ent(s, k, d) == [seq |-> s, k |-> k, d |-> d]
 
+(* the implementation state as one record *)
+CurI == [counter |-> counter, doc |-> doc, notices |-> notices, next |-> next, pend |-> pend, skip |-> skipped,
+         chan |-> chan, late |-> late, wake |-> wake, os |-> os, ct |-> ct, resp |-> resp]
+SetImpl(r) == /\ counter' = r.counter /\ doc' = r.doc /\ notices' = r.notices /\ next' = r.next /\ pend' = r.pend
+              /\ skipped' = r.skip /\ chan' = r.chan /\ late' = r.late /\ wake' = r.wake /\ os' = r.os /\ ct' = r.ct
+              /\ resp' = r.resp
+
 -----------------------------------------------------------------------------
 (* change cache: transcription of processEntry / _addToCache / _addPendingLogs for legal feeds (no ties in the heap);
-   policy: a gap is skipped when more than MaxNum entries wait, or - old - when the sweep finds them overdue *)
-Cur == [next |-> next, pend |-> pend, skip |-> skipped, chan |-> chan, late |-> late, woke |-> FALSE]
+   policy: a gap is skipped when more than MaxNum entries wait, or - old - when the sweep finds them overdue.
+   The cache part of the state record: next, pend, skip, chan, late, wake. *)
 PendSeqs(st) == {p.seq : p \in st.pend}
 Add(st, e, isLate) ==
   [st EXCEPT !.next = Max(@, e.seq + 1),
              !.chan = IF e.k = "doc" THEN [@ EXCEPT ![e.d] = Max(@, e.seq)] ELSE @,
              !.late = IF e.k = "doc" /\ isLate THEN Append(@, [d |-> e.d, seq |-> e.seq]) ELSE @,
-             !.woke = @ \/ e.k = "doc"]
+             !.wake = @ \/ (e.k = "doc" /\ ~(isLate /\ "nowake_late" \in Mut))]
 RECURSIVE Drain(_, _)
 Drain(st, old) ==
   IF st.pend = {} THEN st
@@ -104,7 +116,8 @@ Drain(st, old) ==
             ELSE st
 Arrive(st, e, sk) ==
   LET sk2 == sk \/ (e.seq < st.next /\ e.seq \in st.skip) IN
-  IF e.seq < st.next /\ ~sk2 THEN st                                 \* duplicate of a processed sequence
+  IF e.seq <= Base THEN st                                           \* older than the cache (initialSequence)
+  ELSE IF e.seq < st.next /\ ~sk2 THEN st                            \* duplicate of a processed sequence
   ELSE IF e.seq \in PendSeqs(st) THEN st                             \* duplicate of a pending sequence
   ELSE IF e.seq = st.next THEN Drain(Add(st, e, FALSE), FALSE)
   ELSE IF e.seq > st.next THEN
@@ -123,84 +136,82 @@ RecentFold(st, S, cur, snap) ==
 Process(st, e) ==
   IF e.k = "un" THEN Arrive(st, Ent(e.seq, "un", ""), FALSE)
   ELSE LET s1 == UnusedFold(st, e.unused)
-           cur == IF e.unused # {} THEN SetMin(e.unused) ELSE e.seq
-           s2 == RecentFold(s1, e.recent, cur, s1.next)
+           cur == IF RecentCutAtUnused /\ e.unused # {} THEN SetMin(e.unused) ELSE e.seq
+           s2 == IF "norecent" \in Mut THEN s1 ELSE RecentFold(s1, e.recent, cur, s1.next)
        IN Arrive(s2, Ent(e.seq, "doc", e.d), FALSE)
-SetCache(r) == /\ next' = r.next /\ pend' = r.pend /\ skipped' = r.skip /\ chan' = r.chan /\ late' = r.late
-               /\ wake' = (wake \/ r.woke)
-CacheUnch == UNCHANGED <<next, pend, skipped, chan, late, wake>>
+Low == IF skipped # {} /\ "nolow" \notin Mut THEN SetMin(skipped) - 1 ELSE 0    \* lowSequence = oldest skipped - 1
 Hcs == next - 1                                                      \* high cache sequence at action boundaries (C08: HcsBehind)
-Low == IF skipped # {} THEN SetMin(skipped) - 1 ELSE 0               \* lowSequence = oldest skipped - 1
 Stable == IF skipped # {} THEN SetMin(skipped) - 1 ELSE next - 1     \* _getMaxStableCached
 
 -----------------------------------------------------------------------------
 (* writers *)
 Held(x) == (IF x.seq > 0 THEN {x.seq} ELSE {}) \cup x.unused
-ImplReserve(w, d) == /\ counter' = counter + 1
-                     /\ UNCHANGED <<doc, notices, os, ct, resp>> /\ CacheUnch
-EnvReserve(w, d)  == /\ wr' = [wr EXCEPT ![w] = [pc |-> "res", d |-> d, seq |-> counter + 1, unused |-> {}, base |-> doc[d].ver]]
-                     /\ UNCHANGED <<feed, dup>>
-Reserve(w, d) == /\ wr[w].pc = "idle" /\ counter < MaxSeq
-                 /\ ImplReserve(w, d) /\ EnvReserve(w, d) /\ UNCHANGED ghost
-
+Released(x) == IF "norelease" \in Mut THEN {} ELSE Held(x)
 CasKind(w) == LET x == wr[w] IN
               IF x.base = doc[x.d].ver THEN "commit"
               ELSE IF ~Conflicts THEN "conflict"
               ELSE IF x.seq <= doc[x.d].seq THEN "retrynew" ELSE "retrykeep"
 NewDoc(x) == [seq |-> x.seq, recent |-> doc[x.d].recent \cup x.unused \cup {x.seq}, unused |-> x.unused, ver |-> doc[x.d].ver + 1]
-ImplCas(w) ==
+
+PostReserve(w, d) == [CurI EXCEPT !.counter = @ + 1]
+EnvReserve(w, d)  == /\ wr' = [wr EXCEPT ![w] = [pc |-> "res", d |-> d, seq |-> counter', unused |-> {}, base |-> doc[d].ver]]
+                     /\ UNCHANGED <<feed, dup>>
+Reserve(w, d) == /\ wr[w].pc = "idle" /\ counter < MaxSeq
+                 /\ SetImpl(PostReserve(w, d)) /\ EnvReserve(w, d) /\ UNCHANGED ghost
+
+PostCas(w) ==
   LET x == wr[w] k == CasKind(w) IN
-  /\ counter' = IF k = "retrynew" THEN counter + 1 ELSE counter
-  /\ doc' = IF k = "commit" THEN [doc EXCEPT ![x.d] = NewDoc(x)] ELSE doc
-  /\ notices' = IF k = "conflict" THEN notices \cup Held(x) ELSE notices
-  /\ UNCHANGED <<os, ct, resp>> /\ CacheUnch
-EnvCas(w) ==
-  LET x == wr[w] k == CasKind(w) IN
-  /\ wr' = CASE k = "retrynew"  -> [wr EXCEPT ![w] = [x EXCEPT !.seq = counter + 1, !.unused = @ \cup {x.seq}, !.base = doc[x.d].ver]]
+  [CurI EXCEPT !.counter = IF k = "retrynew" THEN @ + 1 ELSE @,
+               !.doc = IF k = "commit" THEN [@ EXCEPT ![x.d] = NewDoc(x)] ELSE @,
+               !.notices = IF k = "conflict" THEN @ \cup Released(x) ELSE @]
+(* the environment follows the outcome k (in the model CasKind; pass P hands in the OBSERVED one) and the primed
+   implementation variables (the stored revision is what the bucket emits) *)
+EnvCasK(w, k) ==
+  LET x == wr[w] IN
+  /\ wr' = CASE k = "retrynew"  -> [wr EXCEPT ![w] = [x EXCEPT !.seq = counter', !.unused = @ \cup {x.seq}, !.base = doc[x.d].ver]]
              [] k = "retrykeep" -> [wr EXCEPT ![w] = [x EXCEPT !.base = doc[x.d].ver]]
              [] OTHER           -> [wr EXCEPT ![w] = IdleW]
-  /\ feed' = CASE k = "commit"   -> feed \cup {Mut(x.d, x.seq, NewDoc(x).recent, x.unused)}
-               [] k = "conflict" -> feed \cup {Un(s) : s \in Held(x)}
+  /\ feed' = CASE k = "commit"   -> feed \cup {MutEv(x.d, doc'[x.d].seq, doc'[x.d].recent, doc'[x.d].unused)}
+               [] k = "conflict" -> feed \cup {Un(s) : s \in (notices' \ notices)}
                [] OTHER          -> feed
   /\ dup' = dup
-GhostCas(w) == /\ commits' = IF CasKind(w) = "commit" THEN commits \cup {<<wr[w].d, wr[w].seq>>} ELSE commits
-               /\ UNCHANGED <<got, abandoned, ordOK, dead>>
+GhostCasK(w, k) == /\ commits' = IF k = "commit" THEN commits \cup {<<wr[w].d, doc'[wr[w].d].seq>>} ELSE commits
+                   /\ UNCHANGED <<got, abandoned, ordOK, dead>>
 Cas(w) == /\ wr[w].pc = "res" /\ (CasKind(w) = "retrynew" => counter < MaxSeq)
-          /\ ImplCas(w) /\ EnvCas(w) /\ GhostCas(w)
+          /\ SetImpl(PostCas(w)) /\ EnvCasK(w, CasKind(w)) /\ GhostCasK(w, CasKind(w))
 
-ImplFail(w) == /\ notices' = notices \cup Held(wr[w])
-               /\ UNCHANGED <<counter, doc, os, ct, resp>> /\ CacheUnch
-EnvFail(w)  == /\ wr' = [wr EXCEPT ![w] = IdleW] /\ feed' = feed \cup {Un(s) : s \in Held(wr[w])} /\ dup' = dup
-Fail(w) == AllowFail /\ wr[w].pc = "res" /\ ImplFail(w) /\ EnvFail(w) /\ UNCHANGED ghost
+PostFail(w) == [CurI EXCEPT !.notices = @ \cup Released(wr[w])]
+EnvFail(w)  == /\ wr' = [wr EXCEPT ![w] = IdleW] /\ feed' = feed \cup {Un(s) : s \in (notices' \ notices)} /\ dup' = dup
+Fail(w) == AllowFail /\ wr[w].pc = "res" /\ SetImpl(PostFail(w)) /\ EnvFail(w) /\ UNCHANGED ghost
 
-ImplDie(w) == UNCHANGED <<counter, doc, notices, os, ct, resp>> /\ CacheUnch
 EnvDie(w)  == wr' = [wr EXCEPT ![w].pc = "dead"] /\ UNCHANGED <<feed, dup>>
 GhostDie(w) == dead' = dead \cup Held(wr[w]) /\ UNCHANGED <<got, commits, abandoned, ordOK>>
-Die(w) == AllowDie /\ wr[w].pc = "res" /\ ImplDie(w) /\ EnvDie(w) /\ GhostDie(w)
+Die(w) == AllowDie /\ wr[w].pc = "res" /\ SetImpl(CurI) /\ EnvDie(w) /\ GhostDie(w)
 
 -----------------------------------------------------------------------------
 (* the feed *)
 Older(e) == {f \in feed : f.k = "mut" /\ e.k = "mut" /\ f.d = e.d /\ f.seq < e.seq}
 Newer(e) == {f \in feed : f.k = "mut" /\ e.k = "mut" /\ f.d = e.d /\ f.seq > e.seq}
-ImplDeliver(e) == SetCache(Process(Cur, e)) /\ UNCHANGED <<counter, doc, notices, os, ct, resp>>
+PostDeliver(e) == Process(CurI, e)
 EnvDeliver(e, keep) == /\ feed' = IF keep THEN feed ELSE feed \ {e}
                        /\ dup' = IF keep THEN dup - 1 ELSE dup
                        /\ wr' = wr
 Deliver(e, keep) == /\ e \in feed /\ Older(e) = {} /\ (keep => dup > 0)
-                    /\ ImplDeliver(e) /\ EnvDeliver(e, keep) /\ UNCHANGED ghost
+                    /\ SetImpl(PostDeliver(e)) /\ EnvDeliver(e, keep) /\ UNCHANGED ghost
+EnvCoalesce(e) == feed' = feed \ {e} /\ UNCHANGED <<wr, dup>>
 Coalesce(e) == /\ e \in feed /\ Newer(e) # {}
-               /\ feed' = feed \ {e} /\ UNCHANGED <<wr, dup>> /\ UNCHANGED impl /\ UNCHANGED ghost
+               /\ EnvCoalesce(e) /\ SetImpl(CurI) /\ UNCHANGED ghost
 
-ImplTick == SetCache(Drain(Cur, TRUE)) /\ UNCHANGED <<counter, doc, notices, os, ct, resp>>
-Tick == pend # {} /\ ImplTick /\ UNCHANGED env /\ UNCHANGED ghost
+PostTick == Drain(CurI, TRUE)
+Tick == pend # {} /\ SetImpl(PostTick) /\ UNCHANGED env /\ UNCHANGED ghost
 
 (* what something still in flight can declare: an undelivered event, a writer that has not finished *)
 Declares(e) == {e.seq} \cup e.unused \cup e.recent
 InFlight == UNION {Declares(e) : e \in feed} \cup UNION {Held(wr[w]) : w \in {v \in Writers : wr[v].pc = "res"}}
-ImplAbandon == /\ skipped' = {} /\ UNCHANGED <<counter, doc, notices, next, pend, chan, late, wake, os, ct, resp>>
-GhostAbandon == abandoned' = abandoned \cup skipped /\ UNCHANGED <<got, commits, ordOK, dead>>
+PostAbandon == [CurI EXCEPT !.skip = {}]
+GhostAbandon == abandoned' = abandoned \cup (skipped \ skipped') /\ UNCHANGED <<got, commits, ordOK, dead>>
 Abandon == /\ AllowAbandon /\ skipped # {} /\ (TimedAbandon => skipped \cap InFlight = {})
-           /\ ImplAbandon /\ UNCHANGED env /\ GhostAbandon
+           /\ SetImpl(PostAbandon) /\ UNCHANGED env /\ GhostAbandon
 
 -----------------------------------------------------------------------------
 (* changes clients.  Rows: sequence-ordered entries of the channel cache after the effective start, not beyond the high
@@ -217,33 +228,28 @@ GhostResp(c) == /\ got' = [got EXCEPT ![c] = @ \cup RowSet(resp')]
                 /\ ordOK' = (ordOK /\ Ordered(resp'))
                 /\ UNCHANGED <<commits, abandoned, dead>>
 
-ImplRequest == LET R == Stamp(SortRows(ChanRows(Safe(Adj(os))))) IN
-               /\ resp' = R /\ os' = LastTok(R, os)
-               /\ UNCHANGED <<counter, doc, notices, ct>> /\ CacheUnch
-Request == "os" \in Clients /\ ImplRequest /\ UNCHANGED env /\ GhostResp("os")
-
-ImplConnect == /\ ct' = [ct EXCEPT !.on = TRUE, !.first = TRUE, !.since = ct.tok, !.lpos = 0]
-               /\ UNCHANGED <<counter, doc, notices, os, resp>> /\ CacheUnch
-Connect == "ct" \in Clients /\ ~ct.on /\ ImplConnect /\ UNCHANGED env /\ UNCHANGED ghost
-ImplDisconnect == /\ ct' = [ct EXCEPT !.on = FALSE] /\ UNCHANGED <<counter, doc, notices, os, resp>> /\ CacheUnch
-Disconnect == AllowReconnect /\ ct.on /\ ~ct.first /\ ImplDisconnect /\ UNCHANGED env /\ UNCHANGED ghost
+PostRequest == LET R == Stamp(SortRows(ChanRows(Safe(Adj(os))))) IN [CurI EXCEPT !.resp = R, !.os = LastTok(R, os)]
+Request == "os" \in Clients /\ SetImpl(PostRequest) /\ UNCHANGED env /\ GhostResp("os")
 
 RECURSIVE Advance(_, _, _)
 Advance(t, R, i) == IF i > Len(R) THEN t
                     ELSE Advance(IF Before(t, [l |-> 0, s |-> R[i].seq]) THEN [l |-> 0, s |-> R[i].seq] ELSE t, R, i + 1)
-ImplIter ==
-  LET a   == Adj(ct.since)
-      lr  == IF ct.first THEN {} ELSE {late[i] : i \in (ct.lpos + 1)..Len(late)}     \* late-sequence feed (registered on the first iteration)
+(* one iteration of the continuous feed whose position is `since`; lr = what the late-sequence feed hands over *)
+IterPost(since, lr) ==
+  LET a   == Adj(since)
       R   == Stamp(SortRows(lr \cup ChanRows(Safe(a))))
       adv == Advance(a, R, 1)
       (* as coded (ContResumeDropsLow) the loop variable loses LowSeq for good once it matched the current low sequence;
          intended: it is only ignored while it matches, and is honoured again as soon as the low sequence moves *)
-      ns  == IF ContKeepsLow /\ a # ct.since THEN [l |-> ct.since.l, s |-> adv.s] ELSE adv
-  IN /\ resp' = R
-     /\ ct' = [ct EXCEPT !.first = FALSE, !.lpos = Len(late), !.since = ns, !.tok = LastTok(R, ct.tok)]
-     /\ wake' = FALSE
-     /\ UNCHANGED <<counter, doc, notices, next, pend, skipped, chan, late, os>>
-Iter == "ct" \in Clients /\ ct.on /\ (ct.first \/ wake) /\ ImplIter /\ UNCHANGED env /\ GhostResp("ct")
+      ns  == IF ContKeepsLow /\ a # since THEN [l |-> since.l, s |-> adv.s] ELSE adv
+  IN [CurI EXCEPT !.resp = R, !.wake = FALSE,
+                  !.ct = [on |-> TRUE, since |-> ns, lpos |-> Len(late), tok |-> LastTok(R, ct.tok)]]
+PostConnect == IterPost(ct.tok, {})                                  \* late-sequence feeds are registered at the current end
+Connect == "ct" \in Clients /\ ~ct.on /\ SetImpl(PostConnect) /\ UNCHANGED env /\ GhostResp("ct")
+PostIter == IterPost(ct.since, {late[i] : i \in (ct.lpos + 1)..Len(late)})
+Iter == "ct" \in Clients /\ ct.on /\ wake /\ SetImpl(PostIter) /\ UNCHANGED env /\ GhostResp("ct")
+PostDisconnect == [CurI EXCEPT !.ct = [@ EXCEPT !.on = FALSE]]
+Disconnect == AllowReconnect /\ ct.on /\ SetImpl(PostDisconnect) /\ UNCHANGED env /\ UNCHANGED ghost
 
 -----------------------------------------------------------------------------
 Rec(a, w, d, s, keep) == [a |-> a, w |-> w, d |-> d, seq |-> s, keep |-> keep]
@@ -251,13 +257,14 @@ Step(r) == hist' = IF RecordHist THEN Append(hist, r) ELSE hist
 Bound == RecordHist => Len(hist) < MaxSteps
 
 TokT == [l : 0..MaxSeq, s : 0..MaxSeq]
-Init ==
+InitImpl ==
   /\ counter = Base /\ doc = [d \in Docs |-> [seq |-> 0, recent |-> {}, unused |-> {}, ver |-> 0]] /\ notices = {}
   /\ next = Base + 1 /\ pend = {} /\ skipped = {} /\ chan = [d \in Docs |-> 0] /\ late = <<>> /\ wake = FALSE
-  /\ os = NoTok /\ ct = [on |-> FALSE, first |-> FALSE, since |-> NoTok, lpos |-> 0, tok |-> NoTok] /\ resp = <<>>
+  /\ os = StartTok /\ ct = [on |-> FALSE, since |-> StartTok, lpos |-> 0, tok |-> StartTok] /\ resp = <<>>
+InitRest ==
   /\ wr = [w \in Writers |-> IdleW] /\ feed = {} /\ dup = MaxDup
   /\ got = [c \in {"os", "ct"} |-> {}] /\ commits = {} /\ abandoned = {} /\ ordOK = TRUE /\ dead = {}
-  /\ hist = <<>>
+Init == InitImpl /\ InitRest /\ hist = <<>>
 
 Next ==
   /\ Bound
@@ -275,18 +282,19 @@ Next ==
      \/ Iter /\ Step(Rec("Iter", "", "", 0, FALSE))
 Spec == Init /\ [][Next]_vars
 
-(* fairness: the feed delivers, the cache's timers fire, writers finish one way or another, clients keep asking.
-   Not fair: redelivery, coalescing, disconnecting. *)
+(* fairness (only with RecordHist = FALSE): the feed delivers, the cache's timers fire, writers finish one way or
+   another, clients keep asking.  Not fair: redelivery, coalescing, disconnecting. *)
+NoHist == hist' = hist
 WriterStep(w) == Cas(w) \/ Fail(w) \/ Die(w)
 FairSpec ==
   /\ Spec
-  /\ WF_vars(\E e \in feed : Deliver(e, FALSE) /\ Step(Rec("", "", "", 0, FALSE)))
-  /\ WF_vars(Tick /\ Step(Rec("", "", "", 0, FALSE)))
-  /\ WF_vars(Abandon /\ Step(Rec("", "", "", 0, FALSE)))
-  /\ \A w \in Writers : WF_vars(WriterStep(w) /\ Step(Rec("", "", "", 0, FALSE)))
-  /\ WF_vars(Request /\ Step(Rec("", "", "", 0, FALSE)))
-  /\ WF_vars(Connect /\ Step(Rec("", "", "", 0, FALSE)))
-  /\ WF_vars(Iter /\ Step(Rec("", "", "", 0, FALSE)))
+  /\ WF_vars((\E e \in feed : Deliver(e, FALSE)) /\ NoHist)
+  /\ WF_vars(Tick /\ NoHist)
+  /\ WF_vars(Abandon /\ NoHist)
+  /\ \A w \in Writers : WF_vars(WriterStep(w) /\ NoHist)
+  /\ WF_vars(Request /\ NoHist)
+  /\ WF_vars(Connect /\ NoHist)
+  /\ WF_vars(Iter /\ NoHist)
 
 -----------------------------------------------------------------------------
 (* ---- the seam properties ---- *)
@@ -297,7 +305,8 @@ Seen(c, d) == Final(d) = 0 \/ <<d, Final(d)>> \in got[c]
 
 (* C08/C01 ResumeSafe: the position a client would resume from never passes a committed revision it has not been sent
    (unless the cache gave up on that sequence before it arrived) - across skipped sequences and late arrivals *)
-ResumeSafe == \A c \in Clients, d \in Docs : (~Seen(c, d) /\ ~Lost(Final(d))) => Final(d) > Safe(Tok(c))
+ResumeSafeFor(c) == \A d \in Docs : (~Seen(c, d) /\ ~Lost(Final(d))) => Final(d) > Safe(Tok(c))
+ResumeSafe == \A c \in Clients : ResumeSafeFor(c)
 (* C05 soundness half: the channel cache only ever announces committed revisions, never one newer than the bucket's *)
 FeedSound == /\ \A d \in Docs : chan[d] # 0 => (<<d, chan[d]>> \in commits /\ chan[d] <= doc[d].seq)
              /\ \A c \in Clients : got[c] \subseteq commits
@@ -307,8 +316,8 @@ OrderedPerResponse == ordOK
    unused_sequences / recent_sequences), published as unused, or still held by a writer (in flight, or dead = unknown outcome) *)
 Carried == UNION {doc[d].recent \cup doc[d].unused : d \in Docs} \cup {p[2] : p \in commits}
 LedgerAccounted == ((Base + 1)..counter) = Carried \cup notices \cup UNION {Held(wr[w]) : w \in Writers}
-(* C07+C08 NoStall, safety form: when nothing is in flight any more, the cache has no entry waiting, everything below its
-   high-water mark is accounted (forwarded, or skipped-and-dead, or abandoned), and only dead reservations are outstanding *)
+(* C07+C08 NoStall, safety form: when nothing is in flight any more and no entry waits, everything below the cache's
+   high-water mark is accounted (forwarded, or abandoned) and only dead reservations are outstanding *)
 Quiet == feed = {} /\ \A w \in Writers : wr[w].pc # "res"
 Top == IF ((Base + 1)..counter) \ dead = {} THEN Base ELSE SetMax(((Base + 1)..counter) \ dead)
 QuietAccounted == (Quiet /\ pend = {}) => (skipped \subseteq dead /\ next > Top)
@@ -316,7 +325,7 @@ QuietAccounted == (Quiet /\ pend = {}) => (skipped \subseteq dead /\ next > Top)
 TypeOK == /\ counter \in Base..MaxSeq /\ next \in (Base + 1)..(MaxSeq + 1) /\ skipped \subseteq (Base + 1)..MaxSeq /\ os \in TokT /\ ct.tok \in TokT
           /\ \A p \in pend : p.seq > next - 1
           /\ \A s \in skipped : s < next
-PendBound == Cardinality(pend) <= MaxNum
+          /\ Cardinality(pend) <= MaxNum
 
 (* ---- liveness (FairSpec) ---- *)
 (* NoStall: the stable sequence ends up at (or beyond) every number that will ever be declared, nothing stays pending *)
